@@ -32,8 +32,10 @@ def children(v):
             for i, e in enumerate(v.elems):
                 out.append((("e", i), e))
     elif isinstance(v, VIter):
-        if v.kind == "array":
-            out.append((("ipos",), VInt(None, Lin.const(v.pos))))
+        if isinstance(v.pos, Lin):
+            out.append((("ipos",), VInt(None, v.pos)))
+            if isinstance(v.items, Lin):
+                out.append((("ilen",), VInt(None, v.items)))
     return out
 
 
@@ -70,6 +72,10 @@ def with_child(v, key, nv):
         es = list(v.elems)
         es[key[1]] = nv
         return VArr(v.n, tuple(es), v.name, v.src)
+    if isinstance(v, VIter) and k == "ipos":
+        return VIter(v.kind, v.items, nv.lin, v.src, v.extra)
+    if isinstance(v, VIter) and k == "ilen":
+        return VIter(v.kind, nv.lin, v.pos, v.src, v.extra)
     raise Abort("with_child %r %r" % (v, key))
 
 
